@@ -223,22 +223,9 @@ class Wrap(ast.NodeTransformer):
         return ast.Call(func=ast.Name(id="__icv_rec__", ctx=ast.Load()), args=[ast.Constant(idx), node], keywords=[])
 
 
-def first_equal_indices(tree):
-    """pre-order list of nodes and, for each position, the first position holding an equal sub-tree"""
-    subs = X.subexprs(tree)
-    keys = [json.dumps(s) for s in subs]
-    first = {}
-    out = []
-    for i, k in enumerate(keys):
-        first.setdefault(k, i)
-        out.append(first[k])
-    return subs, out
-
-
 def node_index_map(tree_from_ast, pairs):
-    """id(ast node) -> index (first equal) for a tree produced by from_ast"""
-    subs, firsts = first_equal_indices(tree_from_ast)
-    pos = {id(s): firsts[i] for i, s in enumerate(subs)}
+    """id(ast node) -> number of the node (position in the pre-order listing) for a tree made by from_ast"""
+    pos = {id(s): i for i, s in enumerate(X.subexprs(tree_from_ast))}
     return {id(n): pos[id(t)] for t, n in pairs if id(t) in pos}
 
 
@@ -295,7 +282,7 @@ def parse_message(msg, description, seen):
     for k in reversed(cands):
         text = rest[:k]
         try:
-            node = ast.parse(text.strip(), mode="eval").body
+            node = ast.parse("(%s)" % text.strip(), mode="eval").body
         except SyntaxError:
             continue
         if not isinstance(node, ast.Lambda):
@@ -349,6 +336,11 @@ def run_case(i, case, mod, plain):
     env_params_all = {n: to_py(v, mod) for n, v in case["args"]}
     env_closure = {n: to_py(v, mod) for n, v in case["closure"]}
     env_globals = {n: to_py(v, mod) for n, v in case["globals"]}
+    order = case.get("kw_order")
+    if order is not None:
+        env_params_all["_ARGS"], env_params_all["_KWARGS"] = (), {n: env_params_all[n] for n in order}
+    else:
+        env_params_all["_ARGS"], env_params_all["_KWARGS"] = tuple(env_params_all[n] for n in case["func_params"]), {}
     cond_env = {n: env_params_all[n] for n in case["cond_params"]}
     saved = {n: mod.__dict__[n] for n in env_globals if n in mod.__dict__}
     mod.__dict__.update(env_globals)
@@ -363,7 +355,6 @@ def run_case(i, case, mod, plain):
             mod.REPRS[i] = icontract._globals.aRepr
         f = getattr(mod, "make_%d" % i)(*[env_closure[n] for n, _ in case["closure"]])
         del LAST[:]
-        order = case.get("kw_order")
         try:
             if order is not None:
                 r = f(**{n: env_params_all[n] for n in order})
@@ -392,7 +383,7 @@ def run_case(i, case, mod, plain):
             ok = False
             if text is not None:
                 try:
-                    body = ast.parse(text, mode="eval").body
+                    body = ast.parse("(%s)" % text, mode="eval").body
                     ok = json.dumps(X.from_ast(body, [])) == json.dumps(case["tree"])
                 except (SyntaxError, ValueError):
                     ok = False
@@ -433,6 +424,8 @@ def texts_of(case):
     pairs = []
     t = X.from_ast(body, pairs)
     by_tree = {id(tt): atok.get_text(n) for tt, n in pairs}
+    # (asttokens has no positions for nodes inside an f-string: their text comes out empty; the library does
+    # not show those nodes)
     return [by_tree.get(id(s), "") for s in X.subexprs(t)]
 
 
